@@ -1,7 +1,7 @@
 '''C13 - looking at a test result never changes its verdict or its inputs.'''
 import ast
 
-from ..rules import purity
+from ..rules import purity, patterns
 from ..astutil import txt, call_name
 from ..mutate import (Variant, edit_module, find_func, replace_first,
                       remove_stmt, insert_stmt, parse_stmts, parse_expr)
@@ -72,6 +72,7 @@ def check(ctx):
     ctx.run(purity.check_data_inplace)
     ctx.run(purity.check_iter_store)
     ctx.run(purity.check_det, depth=5 if ctx.tier == 'thorough' else 3)
+    ctx.run(patterns.check_patterns, ID)
 
 
 def _body_start(fun):
@@ -91,7 +92,7 @@ def _prepend(qual, text):
     return editor
 
 
-def variants(program):
+def _variants(program):
     out = []
 
     def add(name, kind, mod, editor, expect=None, quick=False, note=''):
@@ -310,3 +311,8 @@ def variants(program):
         note='seed C13-r3-2: the second evaluate() sees no task at all')
 
     return out
+
+
+def variants(program):
+    from ..variants import patterns as _pv
+    return list(_variants(program)) + _pv.variants(program, ID)
